@@ -271,3 +271,39 @@ pub fn run(tier: &str, config: &str) -> Report {
     let _ = tr;
     rep
 }
+
+fn replay_one<H: HK>(v: &Value) -> bool {
+    let or = Oracle::<H> { memo: Mutex::new(HashMap::new()), _h: std::marker::PhantomData };
+    let l = lens::<H>();
+    if let Some(tp) = v.get("two_piece") {
+        let (a, b) = (tp[0].as_u64().unwrap() as usize, tp[1].as_u64().unwrap() as usize);
+        let msg = msg_of(&MSt { line: 0, fork: None, len: a + b });
+        let mut d = H::D::new();
+        d.update(&msg[..a]);
+        d.update(&msg[a..]);
+        let got = d.finalize().to_vec();
+        let want = H::D::digest(&msg).to_vec();
+        println!("replay C08 {} update({}) ; update({}): got {} one-shot {}", H::NAME, a, b, vref::hex(&got), vref::hex(&want));
+        return got == want;
+    }
+    let ops: Vec<Op> = v["ops"].as_array().unwrap().iter().map(|o| {
+        let i = o.get("inst").and_then(|x| x.as_u64()).unwrap_or(0) as u8;
+        match o["op"].as_str().unwrap() {
+            "update" => Op::Update(i, l.iter().position(|x| *x as u64 == o["len"].as_u64().unwrap()).unwrap()),
+            "clone" => Op::CloneOp,
+            "reset" => Op::Reset(i),
+            "finalize_reset" => Op::FinReset(i),
+            "finalize_fixed_reset" => Op::FinFixedReset(i),
+            _ => Op::Fin(i),
+        }
+    }).collect();
+    println!("replay C08 {}: {:?}", H::NAME, ops);
+    match guarded(|| exec::<H>(&or, &ops, true)) {
+        Err(p) => { println!("  PANIC {}", p); false }
+        Ok(Err((sig, detail))) => { println!("  VIOLATION {}: {}", sig, detail); false }
+        Ok(Ok(n)) => { println!("  {} digest comparisons, all equal", n); true }
+    }
+}
+pub fn replay(v: &Value) -> Option<bool> {
+    crate::with_hasher!(v["hasher"].as_str()?, replay_one, v)
+}
